@@ -2,6 +2,7 @@ import TapkeeVerif.Model.Util
 import TapkeeVerif.Model.Knn
 import TapkeeVerif.Model.VpTree
 import TapkeeVerif.Model.KnnIO
+import TapkeeVerif.Model.CoverTree
 /-! Line-protocol driver for the neighbour-search models (C02, DESIGN §11).
 
 in : `knn method=brute|vptree|covertree k=3 cb=plain|kernel metric=L1|Linf|matrix pts=..|m=.. [kern=lin|matrix km=..]
@@ -13,7 +14,7 @@ property C02 determines the result.  The oracle is `Knn.isExactKnn` (the Bool fo
 are about) evaluated on the implementation's lists with distances recomputed here from the same exact inputs.
 `alt` lists the samples with ≥ k+1 other samples coinciding with them (the situation of the repaired defect
 F-KNN-DUP: the query need not be among the k+1 selected; diagnostic only). -/
-open TapkeeVerif TapkeeVerif.Util TapkeeVerif.Knn TapkeeVerif.VpTree TapkeeVerif.KnnIO
+open TapkeeVerif TapkeeVerif.Util TapkeeVerif.Knn TapkeeVerif.VpTree TapkeeVerif.KnnIO TapkeeVerif.CoverTree
 
 def b2s (b : Bool) : String := if b then "1" else "0"
 
@@ -60,6 +61,64 @@ def firstBad {β} (xs : List β) (p : Nat → β → Option String) : String :=
   let bad := (xs.zipIdx.filterMap fun (x, i) => (p i x).map fun r => s!"{i}:{r}")
   if bad.isEmpty then "ok" else "bad@" ++ String.intercalate "," (bad.take 8)
 
+
+/-- one dumped node: `id:scale:nchildren:maxdist:parentdist` -/
+structure Rec where
+  p : Nat
+  scale : Nat
+  nch : Nat
+  maxDist : Int
+  parentDist : Int
+
+def parseRec (s : String) : Option Rec :=
+  match s.splitOn ":" with
+  | [a, b, c, d, e] => do pure ⟨← a.toNat?, ← b.toNat?, ← c.toNat?, ← d.toInt?, ← e.toInt?⟩
+  | _ => none
+
+mutual
+/-- rebuild the tree from its preorder dump; returns the node and the unread records -/
+partial def buildNode : List Rec → Option (CNode Int × List Rec)
+  | [] => none
+  | r :: rest =>
+    match buildChildren r.nch rest with
+    | none => none
+    | some (cs, rest') => some (CNode.mk r.p r.maxDist r.parentDist r.scale cs, rest')
+partial def buildChildren : Nat → List Rec → Option (List (CNode Int) × List Rec)
+  | 0, rest => some ([], rest)
+  | n + 1, rest =>
+    match buildNode rest with
+    | none => none
+    | some (c, rest') =>
+      match buildChildren n rest' with
+      | none => none
+      | some (cs, rest'') => some (c :: cs, rest'')
+end
+
+partial def firstLeafScale : CNode Int → Nat
+  | .mk _ _ _ s [] => s
+  | .mk _ _ _ _ (c :: _) => firstLeafScale c
+
+/-- `wf=..  mq=..  mqorder=..` : well-formedness certificate of the real tree, the model query run on it compared
+    with the real candidate sets (as sets; identical order is a fidelity diagnostic only) -/
+def treeReport (sp : Space) (k : Nat) (treeS : String) (raw : List (List Nat)) : String :=
+  match allSome ((splitNonEmpty treeS ",").map parseRec) with
+  | none => "wf=unparsed"
+  | some recs =>
+    match buildNode recs with
+    | some (top, []) =>
+      let wf := wfTree sp.dist sp.N top
+      let leafScale := firstLeafScale top
+      match batchQuery sp.dist (k + 1) leafScale top with
+      | none => s!"wf={b2s wf} mq=fuel"
+      | some res =>
+        let sameSets := res.length == raw.length && (res.zip raw).all fun (a, b) =>
+          a.head? == b.head? && a.tail.mergeSort == b.tail.mergeSort
+        let sameOrder := res == raw
+        let firstDiff := ((res.zip raw).find? fun (a, b) => !(a.head? == b.head? && a.tail.mergeSort == b.tail.mergeSort)).map
+          fun (a, _) => toString (a.headD 0)
+        s!"wf={b2s wf} mq={if sameSets then "ok" else "diff@q" ++ firstDiff.getD "?"} mqorder={if sameOrder then "same" else "diff"} nodes={recs.length} leafscale={leafScale}"
+    | _ => "wf=unparsed-tree"
+
 def answer (line : String) : String :=
   let fs := fields line
   match mkSpace fs, (field? fs "k") >>= String.toNat? with
@@ -90,7 +149,10 @@ def answer (line : String) : String :=
         let mlists := pts.map fun i => ((sel.find? (·.1 == i)).map (·.2)).getD []
         let oracle := firstBad ids fun i l => if isExactKnn sp.dist pts k i l then none else some (reason sp k i l)
         let ties := (byQuery.filter fun (_, c) => c.length > k + 1).length
-        s!"model={showObs mlists} alt= impl={showObs ids} oracle={oracle} corr={wrap} wrap={wrap} cq={cq} queries={cover} ties={ties}"
+        let tr := match field? fs "tree" with
+          | some t => " " ++ treeReport sp k t raw
+          | none => ""
+        s!"model={showObs mlists} alt= impl={showObs ids} oracle={oracle} corr={wrap} wrap={wrap} cq={cq} queries={cover} ties={ties}{tr}"
       | _, _ => "model=- alt= no-impl"
     else
       let ml := modelLists sp method k vs ((field? fs "metric").getD "")
